@@ -9,7 +9,7 @@ COMMON_NOTE = ("Trusted: Coq 8.16.1 kernel + vm_compute; the hand-written Gallin
 P = {
  "C01": ("Theorems for ALL populations/orderings/alpha (PC01.v). Finite N: finite-horizon Ville inequality for sampling without replacement, probability = count over N! orderings, "
          "and the risk-limit bound for ALPHA (every estimator), betting (fixed bet, aGRAPA), the SPRT and Kaplan-Kolmogorov, on a model shown equal entry-by-entry to a sequential spec. "
-         "N = infinity: PARTIAL theorems (every finite-support law with rational masses, every horizon) for ALPHA, betting, SPRT, Kaplan-Markov, Kaplan-Wald; continuous laws are outside the formal statement. "
+         "N = infinity: theorems for EVERY law of rational-valued (float-valued) observations, given by its expectation functional (positive, normalised, linear; no finite support or rational masses assumed; stated over Coq's reals, hence two stdlib real-number axioms), every finite horizon, for ALPHA, betting, SPRT, Kaplan-Markov, Kaplan-Wald; finite-support laws are an instance. "
          "Exact-enumeration oracles (all N! orderings, all support^n sequences) run on the implementation on every check.",
          "Ville inequality + supermartingale proof in Coq; differential check of NNM model vs NonnegMean; exact N!/IID enumeration oracle", "4 C01"),
  "C02": ("Theorems for all ballot profiles (PC02.v) about the assorter model; model tied to Audit.py by correspondence on generated and exhaustive small profiles; iff / range / margin oracles on the implementation.",
